@@ -10,7 +10,7 @@
 // Vec<Entry> of capacity <= 2.  With a larger builder the entry tags are unknown to the symbolic execution, which then
 // unfolds the nested-builder arms of write_entry and the drop glue of Entry recursively on garbage and does not finish.
 // Hence: every ArrayBuilder here has capacity <= 2, the skeleton (types, widths, index / pos) is concrete and enumerated
-// as separate paths, the payload bytes are symbolic.  contains / array_overlap use no builder and are fully symbolic.
+// as separate paths, the payload bytes are symbolic.  contains uses no builder: number / string contents are symbolic there.
 #![allow(unused_imports, dead_code)]
 use super::*;
 use crate::verif_kani_spec::*;
@@ -339,16 +339,4 @@ fn kb_contains_object() {
     assert!(contains(left.as_slice(), layout_object(&[cs(b"cc")], &[z.it]).as_slice()) == (y.num == z.num));
     assert!(!contains(left.as_slice(), layout_object(&[cs(b"c")], &[z.it]).as_slice()));
     assert!(!contains(left.as_slice(), layout_array(&[z.it]).as_slice()));
-}
-
-// ------------------------------------------------------------------ C13 array_overlap (no builder involved)
-/// [a, b] overlaps [c]  <=>  c is IDENTICAL (same encoding) to a or b (2-byte numbers with symbolic contents)
-#[kani::proof]
-#[kani::unwind(30)]
-#[kani::stub(crate::parser::parse_value, no_text_e)]
-fn kb_array_overlap() {
-    let (a, b, c) = (n2(), n2(), n2());
-    let left = layout_array(&[a, b]);
-    let want = a.same(&c) || b.same(&c);
-    assert!(array_overlap(left.as_slice(), layout_array(&[c]).as_slice()) == Ok(want));
 }
